@@ -244,3 +244,25 @@ void h_find_be(void)
 UNIT['proofs'] += [
     dict(name='find_be', harness='h_find_be', loop_contracts=True, properties=['C12'], solvers=['cadical', 'z3'], timeout=dict(quick=600, thorough=1200), floor=8),
 ]
+
+# ---------------------------------------------------------------------------------------------------------------
+# F8MetaCntx::_comp: the comparator of the reverse (name -> entry) tables must be the strcmp order, or two different names can be treated as one key
+UNIT['prelude'] += r'''
+/* ---- ASSUMED: strncmp(a, b, n) is the strcmp order when n reaches past both strings; with a smaller n two different strings that share their first n bytes compare equal ---- */
+int strncmp_model(const char *a, const char *b, unsigned long n) { int r = strcmp_model(a, b); return (r != 0 && n < (1ul << 20) && nondet_bool()) ? 0 : r; }
+'''
+UNIT['emit']['calls'].update({'strncmp': 'strncmp_model'})
+UNIT['emit'].setdefault('constants', {}).update({'MAX_MSGTYPE_FIELD_LEN': '32ul'})
+UNIT['functions'] += [dict(q='FIX8::F8MetaCntx::_comp', sig=None, cname='metacntx_comp', static=True)]
+UNIT['postlude'] += r"""
+/* the comparator of the reverse (name -> entry) tables */
+void h_reverse_comp(void)
+{
+  unsigned long a = nondet_ulong(), b = nondet_ulong(); __CPROVER_assume(a < (1UL << 24) && b < (1UL << 24));
+  _Bool r = metacntx_comp(&g_pool[a], &g_pool[b]);
+  __CPROVER_assert(r == (a < b), "C12.reverse.comparator_orders_names_exactly_as_strcmp_does");
+  __CPROVER_assert(a == b || r || metacntx_comp(&g_pool[b], &g_pool[a]), "C12.reverse.different_names_are_never_equivalent_keys");
+  VACUITY_PROBE();
+}
+"""
+UNIT['proofs'] += [dict(name='reverse_comp', harness='h_reverse_comp', properties=['C12'], solvers=['cadical', 'z3'], timeout=dict(quick=120, thorough=300), floor=2)]
